@@ -330,14 +330,25 @@ def run(tier, seed):
     trans += r.generated
     model_viol += r.violated
     nrep += replay_ppo(r.tuples("P"), CP, viol, samples)
+    # step-wise PPO (buffer, mini-batches) and n-step PPO (returns, bootstrap, value clipping): StepwisePPO.tla / NStepPPO.tla
+    from . import c16b
+    vb, cb = c16b.violations(tier, seed)
+    viol += vb
+    states += cb["states"]
+    trans += cb["transitions"]
+    nrep += cb["replayed"]
     if model_viol:
         print("MODEL-DRIFT C16: specification invariants violated: %s" % model_viol)
     n_new, n_known = verdict.report("C16", viol)
     cov = {"states": states, "transitions": trans, "traces_validated_against_impl": nrep, "samples": samples[:6],
            "exhaustive": True, "model_constants": cfgs + [CP], "known_finding_witnesses": n_known,
+           "stepwise_and_nstep_ppo": {k: v for k, v in cb.items() if k not in ("samples",)},
            "explanation": "Reinforce.tla / PPOSurrogate.tla enumerate all training steps of a small scope (stateful exponential "
                           "baseline over successive steps); each is replayed into the real loss code with a stub policy and the "
-                          "autograd gradients are compared with the specification's exact values."}
+                          "autograd gradients are compared with the specification's exact values. StepwisePPO.tla / NStepPPO.tla: every "
+                          "explored case (rewards x values x log-ratios x mini-batch subsets; tours x 2-opt moves x curriculum "
+                          "options) replayed into the real shared_step of StepwisePPO / n_step_PPO (real torchrl buffer, real "
+                          "TSPkoptEnv)."}
     verdict.write_evidence("C16", tier, seed, "model_checking", cov,
                            ["autograd itself is trusted", "Lightning logging/optimizer plumbing replaced by no-op doubles",
                             "warm-up mixtures are covered by C20 (values) - here the baselines no/exponential/mean/extra/critic/shared"],
